@@ -19,6 +19,9 @@ extern "C" void __ubsan_on_report(void) {
 	if (tl_ubsan.hit) return;
 	const char* f = file ? strstr(file, "glm/") : nullptr;
 	const char* g = f; while (g && strstr(g + 1, "glm/")) g = strstr(g + 1, "glm/");
+	// reports inside the compiler's intrinsic headers (xmmintrin.h ...) come from GLM's SIMD code: the harnesses use no intrinsics of
+	// their own on generated data, so they are attributed to GLM under the header's name
+	if (!g && file && (strstr(file, "/lib/clang/") || strstr(file, "/lib/gcc/")) && strstr(file, "intrin.h")) { g = strrchr(file, '/'); g = g ? g + 1 : file; }
 	if (!g) { static std::atomic<int> shown(0); if (shown.fetch_add(1) < 20) fprintf(stderr, "note: UBSan report outside GLM (harness code): %s at %s:%u\n", msg ? msg : "", file ? file : "?", line); return; }
 	tl_ubsan.hit = true;
 	snprintf(tl_ubsan.key, sizeof tl_ubsan.key, "ubsan/%s/%s", kind ? kind : "?", g);
